@@ -462,7 +462,7 @@ def main():
 
     # ---- generated tier ----
     if tier == "quick":
-        base_runs = int(os.environ.get("VERIF_FUZZ_RUNS", "20000"))
+        base_runs = int(os.environ.get("VERIF_FUZZ_RUNS", "5000"))
         procs = []
         for k, (t, (frac, _w)) in enumerate(TARGETS.items()):
             procs.append(d.fuzz_proc(t, f"{WORK}/corpus/{t}", d.seed32 + k, runs=max(100, int(base_runs * frac))))
